@@ -191,7 +191,7 @@ func c13Stream(c *Ctx) {
 
 func checkC13(c *Ctx) (string, bool, []string) {
 	r := c.R
-	rule := fmt.Sprintf("every statement accepted from (a) all clause subsets of all 44 kinds, (b) random payloads, (c) the 'odd but accepted' generator (calls with any argument count, time() dimensions with 0-3 arguments of any kind, zero / negative intervals, duration arithmetic with fractional, zero and huge operands, wildcards / regexes / DISTINCT in argument positions, nested subqueries) (d) a fixed witness list and (e) byte/lexeme-mutated statements that the parser still accepts, each through %d public operations, every operation on a fresh re-parse. Non-trivial = statement accepted; distinct by text.", len(Ops))
+	rule := fmt.Sprintf("every statement accepted from (a) all clause subsets of all 44 kinds, (b) random payloads, (c) the 'odd but accepted' generator (calls with any argument count, time() dimensions with 0-3 arguments of any kind, zero / negative intervals, duration arithmetic with fractional, zero and huge operands, wildcards / regexes / DISTINCT in argument positions, nested subqueries) (d) a fixed witness list and (e) byte/lexeme-mutated statements that the parser still accepts, each through %d public operations, every operation on a fresh re-parse; schema mappers are one schema for all measurements, an empty one, a failing one, or a schema per measurement (fields only / tag keys only / both / nothing, empty sets handed out as nil maps) through FieldDimensions and RewriteFields. Non-trivial = statement accepted; distinct by text.", len(Ops))
 	assume := []string{"a recovered panic inside any listed operation is a violation; errors are fine", "operations: " + opNames()}
 	if c.Replay != nil {
 		if idx := replayInt(c, "idx"); idx >= 2000000 && idx < 2100000 {
